@@ -97,6 +97,9 @@ func shutdownWithin(s *server.Server, d time.Duration) (err error, returned bool
 	}
 }
 
+// panicUnit: a request for this unit id makes the handler panic
+const panicUnit = 0xEE
+
 const (
 	cbServe  = 1
 	cbError  = 2
@@ -144,6 +147,10 @@ func (h *handler) Handle(ctx context.Context, req packet.Request) (packet.Respon
 		h.ev.started[ra.String()]++
 	}
 	h.ev.mu.Unlock()
+	if raw[6] == panicUnit {
+		var m map[string]int
+		m["handler"] = 1 // a handler that blows up (nil map write)
+	}
 	if d := int(raw[6]); d > 0 { // unit id = handler duration in ms
 		time.Sleep(time.Duration(d) * time.Millisecond)
 	}
@@ -446,6 +453,30 @@ func runLifeOnce(c lifeCase) harness.Result {
 				return fail("step %d: request %x: received %x (%v), want %x", si, req, got, err, want)
 			}
 			cl.sure = true
+		case "panic-request":
+			// the handler panics while serving this request. The process must survive (a crash is reported through the journal);
+			// whether the server then closes the connection or answers is not prescribed - if it closes it, the usual accounting applies
+			cl := clients[st.Client]
+			if cl == nil || !cl.accepted || cl.closedByUs || cl.inflight != nil {
+				continue
+			}
+			req := spec.EncodeRequest(spec.TCP, spec.Req{FC: 3, Unit: panicUnit, Tx: uint16(si + 1), Addr: 1, Qty: 1})
+			_ = cl.conn.SetWriteDeadline(time.Now().Add(3 * time.Second))
+			if _, err := cl.conn.Write(req); err != nil {
+				return fail("step %d: write failed: %v", si, err)
+			}
+			labels = append(labels, "handler-panic")
+			if closed, _ := observeClosed(cl.conn, 2*time.Second); closed {
+				_ = cl.conn.Close()
+				cl.closedByUs = true
+				cl.sure = true
+				if hasClose {
+					if ev.wait(3*time.Second, func() bool { return ev.closes[cl.local] > 0 }) {
+						cl.confirmed = true
+					}
+				}
+				delete(clients, st.Client)
+			}
 		case "idle":
 			time.Sleep(time.Duration(st.IdleMs) * time.Millisecond)
 		case "disconnect":
@@ -668,7 +699,7 @@ func genLife(t *rapid.T) lifeCase {
 	n := rapid.IntRange(3, 18).Draw(t, "nsteps")
 	connected := 0
 	for i := 0; i < n; i++ {
-		op := rapid.SampledFrom([]string{"connect", "connect", "request", "request", "idle", "disconnect", "addr"}).Draw(t, "op")
+		op := rapid.SampledFrom([]string{"connect", "connect", "request", "request", "idle", "disconnect", "addr", "connect", "request", "panic-request"}).Draw(t, "op")
 		st := step{Op: op}
 		switch op {
 		case "connect":
@@ -680,7 +711,7 @@ func genLife(t *rapid.T) lifeCase {
 			st.Fragmented = rapid.IntRange(0, 3).Draw(t, "frag") == 0
 		case "idle":
 			st.IdleMs = rapid.IntRange(0, 15).Draw(t, "idle")
-		case "disconnect":
+		case "disconnect", "panic-request":
 			st.Client = rapid.IntRange(0, k-1).Draw(t, "client")
 		}
 		c.Steps = append(c.Steps, st)
@@ -766,7 +797,8 @@ func TestCallbackCombinations(t *testing.T) {
 			}
 			c := lifeCase{Callbacks: cb, Seed: uint64(cb)}
 			c.Steps = []step{{Op: "connect", Client: 0}, {Op: "connect", Client: 1}, {Op: "addr"}, {Op: "request", Client: 0, DelayMs: 1},
-				{Op: "request", Client: 1, Fragmented: true}, {Op: "connect", Client: 2}, {Op: "disconnect", Client: 1}, {Op: "idle", IdleMs: 10}, {Op: "connect", Client: 3}}
+				{Op: "request", Client: 1, Fragmented: true}, {Op: "connect", Client: 2}, {Op: "disconnect", Client: 1}, {Op: "idle", IdleMs: 10}, {Op: "connect", Client: 3},
+				{Op: "panic-request", Client: 3}, {Op: "connect", Client: 3}}
 			if cb&cbAccept != 0 {
 				c.Reject = []int{2}
 			}
